@@ -302,3 +302,43 @@ def x5_original_untouched(ctx) -> None:
                 ctx.violation("X5", C.stmt_of(hit), f"{m.qualname} modifies the original specification ({norm(hit)[:50]}): it must be left usable and unchanged")
         if not bad:
             ctx.ok("X5", f"{m.qualname} does not write to the original specification")
+
+
+def x6_fallback_contract(ctx) -> None:
+    """expand_verified first expands without reverse rules and, when that finds nothing, again
+    with them.  The two halves of that contract live in different functions: the first attempt
+    is under a handler for SpecificationNotFound, and expand_comb_class lets exactly that
+    exception out when its search finds nothing (it does not turn it into another one)."""
+    P = ctx.P
+    ev = P.need_method(SPEC, "expand_verified", own=True)
+    f = ev.node
+    ctx.analysed(ev)
+    calls = [c for c in walk_local(f) if isinstance(c, ast.Call) and isinstance(c.func, ast.Attribute) and c.func.attr == "expand_comb_class"]
+    first = [c for c in calls if any(k.arg == "reverse" and isinstance(k.value, ast.Constant) and k.value.value is False for k in c.keywords)]
+    second = [c for c in calls if any(k.arg == "reverse" and isinstance(k.value, ast.Constant) and k.value.value is True for k in c.keywords)]
+    if not first or not second:
+        ctx.violation("X6", f, "expand_verified must try reverse=False first and reverse=True as the fallback", construct=f"{SPEC}.expand_verified attempts")
+        return
+    h = C.catching_handler(f, first[0], "SpecificationNotFound")
+    if h is not None and any(any(x is s for x in ast.walk(h)) for s in second):
+        ctx.ok("X6", "the attempt without reverse rules is under a SpecificationNotFound handler that makes the attempt with them")
+    else:
+        ctx.violation("X6", first[0], "the first attempt (reverse=False) must be under `except SpecificationNotFound` and that handler must make the second attempt (reverse=True)")
+    ec = P.need_method(SPEC, "expand_comb_class", own=True)
+    g = ec.node
+    ctx.analysed(ec)
+    srch = [c for c in walk_local(g) if isinstance(c, ast.Call) and isinstance(c.func, ast.Attribute) and c.func.attr in ("_auto_search_rules", "auto_search")]
+    if not srch:
+        raise AnalysisError("X6: expand_comb_class no longer searches through _auto_search_rules")
+    bad = False
+    for tr, hh, names in C.handlers_around(g, srch[0]):
+        if C.caught(names, "SpecificationNotFound"):
+            rs = [r for r in ast.walk(hh) if isinstance(r, ast.Raise)]
+            lets_out = any(r.exc is None or "SpecificationNotFound" in norm(r.exc) for r in rs)
+            if not lets_out:
+                bad = True
+                what = norm(rs[0].exc) if rs and rs[0].exc is not None else "nothing (the exception is swallowed)"
+                ctx.violation("X6", hh, f"expand_comb_class turns a fruitless search into {what[:60]}: expand_verified only falls back to reverse rules on SpecificationNotFound, "
+                              "so a verified class that needs them now aborts the whole expansion")
+    if not bad:
+        ctx.ok("X6", "a fruitless search leaves expand_comb_class as SpecificationNotFound")
